@@ -6,6 +6,7 @@ import (
 	"io"
 	"math"
 	"strconv"
+	"strings"
 
 	"reflect"
 
@@ -420,61 +421,14 @@ func (iv integerValue) ToString(b io.Writer, s px.FormatContext, g px.RDetect) {
 	f := px.GetFormat(s.FormatMap(), iv.PType())
 	var err error
 	switch f.FormatChar() {
-	case 'x', 'X', 'o', 'd':
+	case 'x', 'X', 'o', 'd', 'b':
 		_, err = fmt.Fprintf(b, goFormat(f), int64(iv))
-	case 'p', 'b', 'B':
-		longVal := int64(iv)
-		intString := strconv.FormatInt(longVal, integerRadix(f.FormatChar()))
-		totWidth := 0
-		if f.Width() > 0 {
-			totWidth = f.Width()
-		}
-		numWidth := 0
-		if f.Precision() > 0 {
-			numWidth = f.Precision()
-		}
-
-		if numWidth > 0 && numWidth < len(intString) && f.FormatChar() == 'p' {
-			intString = intString[:numWidth]
-		}
-
-		zeroPad := numWidth - len(intString)
-
-		pfx := ``
-		if f.IsAlt() && longVal != 0 && !(f.FormatChar() == 'o' && zeroPad > 0) {
-			pfx = integerPrefixRadix(f.FormatChar())
-		}
-		computedFieldWidth := len(pfx) + intMax(numWidth, len(intString))
-
-		for spacePad := totWidth - computedFieldWidth; spacePad > 0; spacePad-- {
-			_, err = b.Write([]byte{' '})
-			if err != nil {
-				break
-			}
-		}
-		if err != nil {
-			break
-		}
-
-		_, err = io.WriteString(b, pfx)
-		if err != nil {
-			break
-		}
-		if zeroPad > 0 {
-			padChar := []byte{'0'}
-			if f.FormatChar() == 'p' {
-				padChar = []byte{' '}
-			}
-			for ; zeroPad > 0; zeroPad-- {
-				_, err = b.Write(padChar)
-				if err != nil {
-					break
-				}
-			}
-		}
-		if err == nil {
-			_, err = io.WriteString(b, intString)
-		}
+	case 'B':
+		// as 'b', with an upper case prefix in the alternate form
+		str := fmt.Sprintf(goFormat(f.ReplaceFormatChar('b')), int64(iv))
+		_, err = io.WriteString(b, strings.Replace(str, `0b`, `0B`, 1))
+	case 'p':
+		f.ApplyStringFlags(b, strconv.FormatInt(int64(iv), 10), false)
 	case 'e', 'E', 'f', 'g', 'G', 'a', 'A':
 		floatValue(iv.Float()).ToString(b, px.NewFormatContext(DefaultFloatType(), f, s.Indentation()), g)
 	case 'c':
@@ -489,43 +443,6 @@ func (iv integerValue) ToString(b io.Writer, s px.FormatContext, g px.RDetect) {
 	}
 	if err != nil {
 		panic(err)
-	}
-}
-
-func intMax(a int, b int) int {
-	if a > b {
-		return a
-	}
-	return b
-}
-
-func integerRadix(c byte) int {
-	switch c {
-	case 'b', 'B':
-		return 2
-	case 'o':
-		return 8
-	case 'x', 'X':
-		return 16
-	default:
-		return 10
-	}
-}
-
-func integerPrefixRadix(c byte) string {
-	switch c {
-	case 'x':
-		return `0x`
-	case 'X':
-		return `0X`
-	case 'o':
-		return `0`
-	case 'b':
-		return `0b`
-	case 'B':
-		return `0B`
-	default:
-		return ``
 	}
 }
 
